@@ -109,16 +109,19 @@ theorem receivesIx_total (s : Server) (ca : Nat) (h : GoodSrv s) :
 
 /-- C10.2 servicing a server never raises, whatever the sockets do: for EVERY server state in which the server is
 listening and the remoters it references have their sockets open, and EVERY script (any fault code — listed or not —
-at any send, recv or handshake call of any connection), `Server.service` returns normally and leaves such a state -/
-theorem service_total (s : Server) (h : GoodSrv s) : (s.service).2 = none ∧ GoodSrv (s.service).1 :=
-  ⟨(service_spec loops_catch_oserror.1 loops_catch_oserror.2 h).1,
-   (service_spec loops_catch_oserror.1 loops_catch_oserror.2 h).2.1⟩
+at any send, recv or handshake call of any connection), `Server.service` returns normally and leaves such a state.
+`CalmQ`: nothing queued on the LISTEN socket will make `accept()` itself raise (EMFILE and the like are resource errors of
+the listener, which `serviceAccepts` re-raises by design; C11 covers what they must not leak) -/
+theorem service_total (s : Server) (h : GoodSrv s) (hq : CalmQ s) : (s.service).2 = none ∧ GoodSrv (s.service).1 :=
+  ⟨(service_spec loops_catch_oserror.1 loops_catch_oserror.2 h hq).1,
+   (service_spec loops_catch_oserror.1 loops_catch_oserror.2 h hq).2.1.1⟩
 
 /-- C10.2 for every history: after any sequence of peers connecting (any address, any scripts), services, transmits
 and removals on a plain or TLS server, the next `service` does not raise (hence none in the history did) -/
 theorem service_total_history (tls : Bool) (ops : List SOp) (hq : ∀ op ∈ ops, op.quiet = true) :
     (((Server.start tls).run ops).service).2 = none :=
-  (service_total _ (run_good loops_catch_oserror.1 loops_catch_oserror.2 ops hq (start_good tls))).1
+  (service_total _ (run_good loops_catch_oserror.1 loops_catch_oserror.2 ops hq (start_good tls) (start_calm tls)).1
+    (run_good loops_catch_oserror.1 loops_catch_oserror.2 ops hq (start_good tls) (start_calm tls)).2).1
 
 /-- C10.2 (re-use) when `Server.reopen()` forgets the remoters of the previous opening (flag probed from the code), a server that is
 closed and re-opened — whatever state it was in, connections open or handshaking — is serviceable again: the next
@@ -132,7 +135,7 @@ theorem service_after_reopen_total (hflag : Gen.Tcp.reopenClearsIxes = true) (s 
       simp [Server.reopen, Server.reclose, hflag] at hp
     · intro p hp
       simp [Server.reopen, Server.reclose, Server.close, hflag] at hp
-  exact (service_total _ hg).1
+  exact (service_total _ hg (by intro i hi; simp [Server.reopen, Server.reclose, Server.close, hflag] at hi)).1
 
 /-- non-vacuity: two peers, one resets during receive, one breaks the pipe on send -/
 example : (∀ op ∈ [SOp.conn ⟨1, [.fault 32], [.data [1]], [], false⟩, SOp.conn ⟨2, [], [.fault 104], [], false⟩, SOp.svc, SOp.tx 1 [7], SOp.svc],
@@ -141,15 +144,15 @@ example : (∀ op ∈ [SOp.conn ⟨1, [.fault 32], [.data [1]], [], false⟩, SO
 /-- C10.3 siblings are unaffected: after the connects phase, what `service` leaves in the connection table is the table
 mapped entry by entry — each connection's receive pass, then its send pass, depend on that connection's own state and
 script only; a connection that raised is dropped, every other entry is exactly what it would be had nobody faulted -/
-theorem siblings_unaffected (s : Server) (h : GoodSrv s) :
+theorem siblings_unaffected (s : Server) (h : GoodSrv s) (hq : CalmQ s) :
     (s.service).1.ixes =
       ((s.connects).1.ixes.filterMap (keep Rem.serviceReceives)).filterMap (keep Rem.serviceSends) :=
-  (service_spec loops_catch_oserror.1 loops_catch_oserror.2 h).2.2
+  (service_spec loops_catch_oserror.1 loops_catch_oserror.2 h hq).2.2
 
 /-- the same, entry-wise: a connection whose own two passes do not raise is in the table afterwards, serviced -/
-theorem sibling_serviced (s : Server) (h : GoodSrv s) (p q : Nat × Rem) (hp : p ∈ (s.connects).1.ixes)
+theorem sibling_serviced (s : Server) (h : GoodSrv s) (hc : CalmQ s) (p q : Nat × Rem) (hp : p ∈ (s.connects).1.ixes)
     (hq : (keep Rem.serviceReceives p).bind (keep Rem.serviceSends) = some q) : q ∈ (s.service).1.ixes := by
-  rw [siblings_unaffected s h]
+  rw [siblings_unaffected s h hc]
   cases h1 : keep Rem.serviceReceives p with
   | none => rw [h1] at hq; cases hq
   | some m =>
@@ -188,8 +191,22 @@ example : ∀ op ∈ [COp.connect 0 (some (.fault 104)), COp.connect 0 none, COp
   intro op h
   simp at h
   rcases h with rfl | rfl | rfl
-  · exact Or.inr (Or.inl (by decide +kernel))
-  · trivial
-  · trivial
+  · exact ⟨Or.inr (Or.inl (by decide +kernel)), by decide +kernel⟩
+  · exact (by decide +kernel : RcOK 0)
+  · exact ⟨trivial, by decide +kernel⟩
+
+/-- C10.1 the CONNECT call is a fault site too: whatever connection-level errno of the property's list `connect_ex`
+returns, `Client.accept()` (hence `ClientTls.connect()`, `serviceConnect()`, `service()`) does not raise and does not take
+the socket for connected — it tries again later, on the same or on a fresh socket; `0`/`EISCONN` mean connected; a
+connect still in progress means try again (table probed from the code over every errno) -/
+theorem connect_fault_is_retry :
+    (∀ e ∈ Gen.Tcp.connFaultErrnos, connectLookup e = .retry ∨ connectLookup e = .reopen) ∧
+    connectLookup 0 = .connected ∧ connectLookup Gen.Tcp.eisconn = .connected ∧
+    (∀ e ∈ [Gen.Tcp.einprogress, Gen.Tcp.ealready, Gen.Tcp.eagain], connectLookup e = .retry) := by
+  decide +kernel
+
+/-- so every listed fault at the connect site satisfies the hypothesis of `client_connect_total` -/
+theorem listed_connect_faults_ok : ∀ e ∈ Gen.Tcp.connFaultErrnos, RcOK e := by
+  decide +kernel
 
 end Hio.Tcp
